@@ -14,9 +14,9 @@
    symlink target verbatim, xattrs and bytes.  [iso_at ... rel]: at the relative path rel the
    source and the destination below the landing path both have nothing, or the destination
    entry is a faithful copy of the source entry.
-   The theorems named _partial are proved for one literal source (no wildcards) without
-   multiply-linked files; the inode-partition clause of [tree_iso] is not proved (see
-   props/C13.json). *)
+   The theorems are proved for ONE literal source (no wildcards), link groups included
+   ([links_consistent]: the names of one multiply-linked regular file carry one dentry);
+   hence the suffix _partial.  See props/C13.json. *)
 From Coq Require Import List NArith Bool.
 From FS Require Import Sx Model.Path Model.SymMode Model.Copier Model.CopySpec
   Proofs.CopierP Proofs.CopyOpsP Proofs.CopyTopP Proofs.CopyThmP Proofs.CopyFaithP Proofs.CopyEx.
@@ -24,29 +24,30 @@ Import ListNotations.
 Open Scope N_scope.
 Open Scope bool_scope.
 
-(* Full statement (copy_into_empty_faithful): for every well-formed source (link groups
-   included) and empty destination, tree_iso o ms merged sn L (result) — the clause proved here
-   plus "two copied regular files share an inode iff their sources do".
+(* For every well-formed source (link groups included) and empty destination:
+   tree_iso o ms merged sn L (result) = at every relative path the destination entry is a
+   faithful copy of the source entry or both have nothing, AND two copied regular files share
+   an inode iff their sources do.  (_partial: one literal source; wildcards are C15's.)
    [landing_clear]: the directories MkdirAll makes for the dst argument do not lie below the
    landing path unless the source has them too (false for dst = "a/x/.." with dir-contents:
    ensureDstPath makes a/x, the copy lands in a; see ex_dotdot_extra_directory). *)
 Theorem copy_into_empty_faithful_partial :
-  forall o sroot, wf_src sroot -> no_link_groups sroot ->
+  forall o sroot, wf_src sroot -> links_consistent sroot ->
   forall fs src dst r ms sn L m,
     o_wild o = false -> empty_dst fs ->
     overlay_all o sroot (view_of_fs fs) src dst = inl r ->
     parse_of o = Some ms -> s_resolve sroot (rooted src) = inl sn ->
     xr_landings r = [L] -> xr_merged r = [m] -> landing_clear r sn L ->
     exists st', copy_top o sel_all sroot fs src dst = (st', None) /\
-                forall rel, iso_at o ms m sn L (view_of_fs (c_fs st')) rel = true.
-Proof. exact copy_into_empty_faithful_partial_proof. Qed.
+                tree_iso o ms m sn L (view_of_fs (c_fs st')).
+Proof. exact copy_into_empty_faithful_proof. Qed.
 
 (* On ANY destination: every copied entry (the landing directory itself excepted when it is
    merged into) carries the requested owner, the requested octal or symbolic mode (symlinks
    excepted), the requested time and the source's type; every directory the call made above the
    target carries the requested owner and time (after fixCreatedParentDirs). *)
 Theorem copy_options_applied_partial :
-  forall o sroot, wf_src sroot -> no_link_groups sroot ->
+  forall o sroot, wf_src sroot -> links_consistent sroot ->
   forall fs src dst r ms sn L m,
     o_wild o = false -> wf_fs fs ->
     overlay_all o sroot (view_of_fs fs) src dst = inl r ->
@@ -68,7 +69,7 @@ Proof. exact copy_options_applied_partial_proof. Qed.
    destination paths of the non-directories of the source ([nd_paths]: one entry per source
    non-directory), and a directory is only ever notified with the path of a source directory. *)
 Theorem notifier_exact_partial :
-  forall o sroot, wf_src sroot -> no_link_groups sroot ->
+  forall o sroot, wf_src sroot -> links_consistent sroot ->
   forall fs src dst r ms sn L,
     o_wild o = false -> wf_fs fs ->
     overlay_all o sroot (view_of_fs fs) src dst = inl r ->
@@ -86,8 +87,12 @@ Print Assumptions copy_options_applied_partial.
 Print Assumptions notifier_exact_partial.
 
 (* ---- non-vacuity ---- *)
-Example ex_hypotheses : wf_src ex_src /\ no_link_groups ex_src /\ empty_dst fs_empty.
-Proof. exact (conj (proj1 ex_src_wf) (conj (proj2 ex_src_wf) (conj fs_empty_wf fs_empty_empty))). Qed.
+Example ex_hypotheses :
+  wf_src ex_src /\ links_consistent ex_src /\ empty_dst fs_empty /\ wf_src ex_src_links /\ links_consistent ex_src_links.
+Proof.
+  exact (conj (proj1 ex_src_wf) (conj (links_consistent_nolinks _ (proj2 ex_src_wf))
+        (conj (conj fs_empty_wf fs_empty_empty) ex_src_links_wf))).
+Qed.
 
 Definition ex_rels : list (list (list N)) :=
   [ []; [n_d]; [n_d; n_f]; [n_d; n_l]; [n_p]; [n_x]; [n_d; n_x]; [n_f] ].
@@ -146,5 +151,22 @@ Example ex_dotdot_extra_directory :
       (match lstat (c_fs st') [n_a; n_f], lstat (c_fs st') [n_a; n_x] with
        | Some f, Some x => is_reg f && is_dir x | _, _ => false end)
   | _ => false
+  end = true.
+Proof. vm_compute. reflexivity. Qed.
+
+(* link groups: d/f, d/g and h are three names of one source inode; into the empty destination
+   the three copies share one inode, d/x has its own: tree_iso_b including the partition *)
+Example ex_link_group :
+  match overlay_all o_plain ex_src_links (view_of_fs fs_empty) [] s_slash,
+        copy_top o_plain sel_all ex_src_links fs_empty [] s_slash with
+  | inl r, (st', None) =>
+      (match xr_landings r, xr_merged r with
+       | [L], [m] => tree_iso_b o_plain None m ex_src_links L (view_of_fs (c_fs st'))
+                       [ []; [n_d]; [n_d; n_f]; [n_d; n_g]; [n_d; n_x]; [n_h]; [n_x] ]
+       | _, _ => false end) &&
+      (match names (c_fs st') [n_d; n_f], names (c_fs st') [n_d; n_g], names (c_fs st') [n_h], names (c_fs st') [n_d; n_x] with
+       | Some a, Some b, Some c, Some d => N.eqb a b && N.eqb b c && negb (N.eqb a d)
+       | _, _, _, _ => false end)
+  | _, _ => false
   end = true.
 Proof. vm_compute. reflexivity. Qed.
